@@ -1976,13 +1976,11 @@ func g23HeaderCondition(r *Repo, rep *Report, fi *FuncInfo) {
 	rep.sample(map[string]string{"rule": "G23 the reload loop's header is `this pass generated something`", "loop": r.pos(loop.Pos())})
 }
 
-
 // isEmptyString: the constant "".
 func isEmptyString(info *types.Info, e ast.Expr) bool {
 	tv, ok := info.Types[e]
 	return ok && tv.Value != nil && tv.Value.ExactString() == `""`
 }
-
 
 // undefDerived: the local variables whose value is computed from the package's undefined calls (the field `undefined` of the
 // package generator), directly or through other such variables.
@@ -2047,7 +2045,6 @@ func undefDerived(info *types.Info, body *ast.BlockStmt) map[types.Object]bool {
 	return undef
 }
 
-
 // g23NothingGenerated: the condition is the negation of a variable that only ever holds the result of (*pkg).Generate.
 func g23NothingGenerated(r *Repo, fi *FuncInfo, cond ast.Expr) bool {
 	info := fi.Pkg.TypesInfo
@@ -2087,7 +2084,6 @@ func g23NothingGenerated(r *Repo, fi *FuncInfo, cond ast.Expr) bool {
 	return fromGen && !other
 }
 
-
 // g5LocalIs: e is a local variable with exactly one definition, whose right-hand side has the given text.
 func g5LocalIs(info *types.Info, fi *FuncInfo, e ast.Expr, text string) bool {
 	id, ok := ast.Unparen(e).(*ast.Ident)
@@ -2113,7 +2109,6 @@ func g5LocalIs(info *types.Info, fi *FuncInfo, e ast.Expr, text string) bool {
 	})
 	return defs == 1 && match
 }
-
 
 // g23ProgressStateLocal — what a pass left undefined is compared with what the pass before left undefined *for this package*. The
 // record of the pass before must therefore live in generatePackage's own activation (a local variable): a field of the
